@@ -139,7 +139,7 @@ func VerifHarness_C15_DefaultOutputFile() {
 // that location" can be found for each of them.
 func VerifHarness_C15_GetPackages() {
 	n := 1 + nondetChoice("converters", 3)
-	globalFile := nondetChoice("global.output:file", 3)  // 0 none, 1 relative, 2 @cwd/
+	globalFile := nondetChoice("global.output:file", 3) // 0 none, 1 relative, 2 @cwd/
 	globalExtend := nondetChoice("global.extend", 2) == 1
 	raw := &Raw{WorkDir: "/work"}
 	if globalFile == 1 {
